@@ -958,3 +958,9 @@ LEVEL_NOTE = ('Trusted: Lean kernel; axioms within {propext, Classical.choice, Q
               'implementation by object identity (the functional model has no process identity). Known '
               'finding F12 is reproduced by the model (shared heap object) and reported as KNOWN-FINDING.')
 TECHNIQUE = 'Lean 4 proof (arithmetic, induction over the store) + model/code correspondence (differential) + law oracle'
+
+
+# daughters built by one composer with per-daughter configuration: nothing is shared through the composer
+from harness import composerdiv as _cdv                 # noqa: E402
+from harness.mixins import add_family as _add_family    # noqa: E402
+_add_family(globals(), _cdv, 'composerdiv', _cdv.oracle, share=0.03)
